@@ -328,3 +328,36 @@ def take(L, m):
 def iter_pos(it):
     """(ghost) number of items an iterator has consumed; only meaningful in invariants"""
     raise RuntimeError('iter_pos is a ghost function')
+
+
+# ---- an arbitrary callee for higher-order function contracts: uninterpreted functions over opaque items ----------------
+def _uf(name, arity, rng_bool=False):
+    from .values import ITEM_SORT
+    return z3.Function(name, *([ITEM_SORT] * arity + [z3.BoolSort() if rng_bool else ITEM_SORT]))
+
+
+def _callee2(ex, a, b):
+    return VItem(_uf('callee2', 2)(a.t, b.t))
+
+
+def _callee1(ex, a):
+    return VItem(_uf('callee1', 1)(a.t))
+
+
+def _pred1(ex, a):
+    return VBool(_uf('pred1', 1, True)(a.t))
+
+
+@prim(_callee2)
+def callee2(a, b):
+    raise RuntimeError('uninterpreted callee: symbolic only')
+
+
+@prim(_callee1)
+def callee1(a):
+    raise RuntimeError('uninterpreted callee: symbolic only')
+
+
+@prim(_pred1)
+def pred1(a):
+    raise RuntimeError('uninterpreted predicate: symbolic only')
